@@ -29,6 +29,7 @@ WrongNameDevsFor(e) ==
    (IF e.prone THEN {"D_new_compressor_partial_match_children"} ELSE {})) \cap OpenDevs
 
 W == INSTANCE Wire WITH Dev <- {}
+BL == INSTANCE BuildLimit
 
 VARIABLES l, used
 tvars == <<l, used>>
@@ -123,6 +124,47 @@ T_Trunc ==
   /\ used' = IF \E i \in 1..Len(Rec[l].steps) : Rec[l].steps[i].op = "trunc" /\ Rec[l].steps[i].counts # Zero4
              THEN used \cup {"D_new_builder_truncate_counts"} ELSE used
 
+\* One script under one abstract size limit through every limiting entry
+\* point of both builders (established: set_push_limit before / between the
+\* pushes / replacing a laxer one / across builder(), target capacity; new:
+\* buffer size, limit_to before / between the pushes / narrowing a laxer
+\* one / after a stricter one / across truncate()).  Every run obeys
+\* BuildLimit (limits count the whole message, header included); the
+\* finished octets have the last length and counts; the referee and both
+\* readers find exactly the admitted items in them; runs whose pushes need
+\* the same lengths under the same effective limits admit the same prefix of
+\* pushes, and runs that admit the same pushes with the same lengths emit
+\* the same octets, whichever builder and entry point.
+AcceptedOf(items, oks) ==
+  LET idx == SelectSeq([i \in 1..Len(items) |-> i], LAMBDA i : oks[i]) IN [j \in 1..Len(idx) |-> items[idx[j]]]
+RunOk(e, r) ==
+  LET f == BL!Fold(BL!Init(r.cap), r.steps, 1, IF r.side = "old" THEN "soft" ELSE "hard", e.items, e.fixed, 1)
+  IN /\ f.st.ok
+     /\ f.pushes = Len(e.items)
+     /\ r.oks = BL!PushOks(r.steps)
+     /\ Len(r.m) = f.st.len
+     /\ <<W!QD(r.m), W!AN(r.m), W!NS(r.m), W!AR(r.m)>> = f.st.counts
+     /\ \E i \in 1..Len(e.outs) : e.outs[i].m = r.m /\ e.outs[i].oks = r.oks
+RunSt(e, r) == BL!Fold(BL!Init(r.cap), r.steps, 1, IF r.side = "old" THEN "soft" ELSE "hard", e.items, e.fixed, 1).st
+LimitOk(e) ==
+  /\ \A i \in 1..Len(e.runs) : RunOk(e, e.runs[i])
+  /\ \A i \in 1..Len(e.outs) :
+        /\ SpecReads(e.outs[i].m, AcceptedOf(e.items, e.outs[i].oks))
+        /\ e.outs[i].old_reads /\ e.outs[i].new_reads
+  /\ \A i, j \in 1..Len(e.runs) :
+        LET a == e.runs[i]
+            b == e.runs[j]
+            k == BL!FirstFail(a.oks)
+        IN /\ (/\ BL!Upto(BL!Needs(a.steps), k) = BL!Upto(BL!Needs(b.steps), k)
+               /\ BL!Upto(RunSt(e, a).bounds, k) = BL!Upto(RunSt(e, b).bounds, k)
+               /\ ~RunSt(e, a).amb /\ ~RunSt(e, b).amb)
+              => BL!Upto(a.oks, k) = BL!Upto(b.oks, k)
+           /\ (a.oks = b.oks /\ BL!Lens(a.steps) = BL!Lens(b.steps)) => a.m = b.m
+T_Limit ==
+  /\ IsEv("limit")
+  /\ (IF LimitOk(Rec[l]) THEN TRUE ELSE FALSE)
+  /\ used' = used
+
 \* a recorded verdict against the referee's: equal, unless the referee
 \* leaves the RDATA open
 ItemAgrees(s, o) == s.und \/ o = s
@@ -152,7 +194,7 @@ T_Plain ==
   /\ used' = IF ViewAgrees(W!CodecView(FALSE, Rec[l].m, Rec[l].starts), Rec[l].new) THEN used
              ELSE used \cup {"D_new_ptr_rule"}
 
-TNext == T_Built \/ T_Big \/ T_Fill \/ T_FillPanic \/ T_Trunc \/ T_Plain
+TNext == T_Built \/ T_Big \/ T_Fill \/ T_FillPanic \/ T_Trunc \/ T_Plain \/ T_Limit
 TSpec == TInit /\ [][TNext]_tvars
 
 Accepted ==
